@@ -98,7 +98,7 @@ def run(ctx):
             out = [float(t) for t in r[1]]
             want = textbook(exact, m)
             tiny = any(0 < x < Fr(1, 10**15) for x in exact)
-            cl = (lambda a, b: abs(Fr(a) - b) <= Fr(1, 10**9) * b) if tiny else close      # no absolute tolerance for tiny p-values
+            cl = (lambda a, b: abs(F(a) - b) <= Fr(1, 10**9) * b) if tiny else close      # no absolute tolerance for tiny p-values
             if len(out) != len(want) or not all(cl(a, b) for a, b in zip(out, want)):
                 bad = {"method": m, "returned": out, "textbook": [float(t) for t in want]}; break
             # equal raw p-values receive equal adjusted values; order preserved (pairwise for short vectors; for long ones
